@@ -691,4 +691,36 @@ example : circOk Variant.repaired {} { N := 2, C := 1, ops := [.gate ['H'] none 
       (rows[1]?.map (readLabels 1)) = some [['H'], ['M']]) := by
   refine ⟨by decide +kernel, by decide +kernel, _, rfl, by decide +kernel⟩
 
+/-! ## a renderer object used twice (`r.layout()` called again; fixes/C20-5)
+
+The contract of every entry point is "the picture of the circuit as it is now, drawn from empty
+rows": `render v sty c` is a function of the current fields of the circuit and of the style only —
+no state survives a drawing in the model (and the harness checks on every case that drawing leaves
+the circuit's gate list and the fields of its gates unchanged, and that a circuit whose gates were
+re-assigned / appended / removed after a drawing is drawn like a freshly built one). -/
+
+/-- **`layout()` twice on one renderer, repaired tree**: the second call draws exactly the picture a
+fresh renderer draws for the circuit as it is then — whatever the first call drew. -/
+theorem relayout_is_fresh (v : Variant) (hv : v.resetLayout = true) (sty : Style) (c0 c : Circ) (st0 : St)
+    (h0 : layoutSt v sty c0 = .ok st0) : render2 v sty c0 c = render v sty c := by
+  unfold render2 relayoutSt
+  rw [h0]
+  simp only [hv, if_true, render, layoutSt]
+
+/-- **shipped tree: the second `layout()` of a renderer object is not the picture of the circuit**
+(2 qubits, one `X`, default style, nothing changed between the calls): the drawing has rows of width 16, the second
+call prints rows of width 44, the middle row of `q0` carries its label and the gate twice
+(` q0 : q0 :…`, `labels_in_order` reads `X, X`). -/
+theorem relayout_counterexample :
+    ∃ rows, render2 { spanFix := true, insideNode := true, globalBox := true, measBox := true } {}
+        { N := 2, C := 0, ops := [.gate ['X'] none [0] none] } { N := 2, C := 0, ops := [.gate ['X'] none [0] none] } = .ok rows ∧
+      rowWidths { spanFix := true, insideNode := true, globalBox := true, measBox := true } {}
+        { N := 2, C := 0, ops := [.gate ['X'] none [0] none] } = some (List.replicate 6 16) ∧
+      rows[4]?.map (readLabels 1) = some [['X'], ['X']] ∧
+      (rows[4]?.map fun r => r.take 10) = some [' ','q','0',' ',':',' ','q','0',' ',':'] ∧
+      rows.map List.length = List.replicate 6 44 := by
+  refine ⟨_, rfl, by decide +kernel, by decide +kernel, by decide +kernel, by decide +kernel⟩
+
+example : ∃ st0, layoutSt Variant.repaired exStyle exCirc = .ok st0 := ⟨_, rfl⟩
+
 end QipVerif.C20
